@@ -50,11 +50,12 @@ def count_loc(class_node: Any, source: str) -> int:
         source: Full source code string
 
     Returns:
-        Number of lines in class definition
+        Number of non-blank, non-comment lines in class definition
     """
     start_line = class_node.start_point[0]
     end_line = class_node.end_point[0]
-    return end_line - start_line + 1
+    lines = source.split("\n")[start_line : end_line + 1]
+    return sum(1 for line in lines if line.strip() and not line.strip().startswith("//"))
 
 
 def _get_class_body(class_node: Any) -> Any:
